@@ -2,6 +2,7 @@ package main
 
 import (
 	"fmt"
+	"go/token"
 	"sort"
 	"strings"
 
@@ -429,6 +430,23 @@ func (sp *TSpec) Analyze(fn *ssa.Function, entry *tsState, watch InstrPred) *TSR
 			for _, st := range states {
 				// prune by facts
 				if iff, ok := b.Instrs[len(b.Instrs)-1].(*ssa.If); ok {
+					// a boolean whose value this path fixed (a constant, or a phi of constants: `ok := true/false`)
+					cond, neg := iff.Cond, false
+					for {
+						if u, isU := cond.(*ssa.UnOp); isU && u.Op == token.NOT {
+							cond, neg = u.X, !neg
+							continue
+						}
+						break
+					}
+					if bv, known := st.BoolOf(cond); known {
+						if neg {
+							bv = !bv
+						}
+						if (bv && si != 0) || (!bv && si != 1) {
+							continue
+						}
+					}
 					if x, trueNonNil, ok := condNilTest(iff.Cond); ok {
 						skip := false
 						for _, fk := range nilFactKeys(x) {
